@@ -45,7 +45,11 @@ pub fn specs() -> Vec<PropertySpec> {
         PropertySpec {
             id: "C17",
             level: "exploration",
-            plans: vec![Plan { engine: "e2", variant: "c17", quick: 800, thorough: 20_000, asan: false }],
+            plans: vec![
+                Plan { engine: "e2", variant: "c17", quick: 800, thorough: 20_000, asan: false },
+                // a run that met an I/O fault and reports success must have produced the same bytes
+                Plan { engine: "e2", variant: "c18f", quick: 300, thorough: 5_000, asan: false },
+            ],
             rule: "seeded rich projects (>=6 types, >=3 directives and scalar mappings, >=2 implementers per interface); check+generate under 4 hash seeds x 2 directory-enumeration orders on fresh trees, a re-run on the generated tree, and a crash (or torn write + crash) at sampled system calls followed by a clean run; everything compared byte for byte",
             assumptions: vec!["std's SipHash keys come from one getrandom call per process (verified by the self-test)", "directory order is permuted inside readdir64"],
             real_components: vec!["nitrogql-cli binary"],
